@@ -5,6 +5,7 @@ mod alloc;
 mod c05;
 mod c06;
 mod c08;
+mod c09;
 mod c14;
 mod c16;
 mod sync;
@@ -28,6 +29,7 @@ fn main() {
         "c06" | "c07" => c06::run(&text, &args[2], &mut out),
         "c08" => c08::run(&text, &mut out),
         "c16" => c16::run(&text, &args[2], &mut out),
+        "c09" => c09::run(&text, &args[2], &mut out),
         "c14gen" => c14::gen(&text, &mut out),
         "c14" | "c15" => c14::run(&text, &mut out),
         other => {
